@@ -88,7 +88,12 @@ def run_case(c):
     fc = models.pair_fc(sc.cell, sc.scaled_positions, sc.symbols, cutoff, r0=r0)
     shells = models.count_shells(sc.cell, sc.scaled_positions, cutoff)
     p2s = np.array(pr.p2s_map)
-    ph.force_constants = fc if c["full"] else np.array(fc[p2s], dtype="double", order="C")
+    # the force constants as the caller may hold them: C order, Fortran order, a strided window of a larger buffer, a non-owning view ...
+    from vlib.gen.layout import ARRAY_KINDS, relayout as _rl
+
+    _frng = np.random.default_rng(c["qseed"] + 21)
+    fc_in, fckind = _rl(fc if c["full"] else fc[p2s], _frng, kind=ARRAY_KINDS[int(_frng.integers(len(ARRAY_KINDS)))])
+    ph.force_constants = fc_in
     M = np.linalg.inv(pr.cell @ np.linalg.inv(sc.cell))  # supercell rows in primitive lattice units
     rng = np.random.default_rng(c["qseed"])
     qs = []
@@ -147,7 +152,7 @@ def run_case(c):
     multi = ph.primitive.get_smallest_vectors()[1]
     maxmult = int(np.max(multi[..., 0])) if multi.ndim == 3 else int(np.max(multi))
     return {"viol": viol[:6], "nontrivial": nontrivial, "key": key, "evals": len(qs) * 3,
-            "obs": {"q_" + k: v for k, v in nq.items()} | {"qlayout_" + qkind: 1, "regime_" + c["regime"]: 1, "compact": int(not c["full"]), "sparse_svecs": int(not c["store_dense_svecs"]),
+            "obs": {"q_" + k: v for k, v in nq.items()} | {"qlayout_" + qkind: 1, "fclayout_" + fckind: 1, "regime_" + c["regime"]: 1, "compact": int(not c["full"]), "sparse_svecs": int(not c["store_dense_svecs"]),
                                                             "ws_boundary_multiplicity_gt1": int(maxmult > 1), "shells": [shells]},
             "maxerr": maxerr,
             "sample": {"crystal": c["crystal"], "smat": c["smat"], "pmat": pm, "cutoff": cutoff, "Lmin": Lmin, "shells": shells, "regime": c["regime"],
